@@ -745,7 +745,7 @@ def trusted_scan(lines):
     return res
 
 def enclosing_fn(lines, idx):
-    for j in range(idx, -1, -1):
+    for j in range(min(idx, len(lines) - 1), -1, -1):   # a span may point into another file (vstd): clamp
         m = re.search(r"\bfn\s+(\w+)", lines[j].text.split("//")[0])
         if m and not lines[j].text.strip().startswith(("requires", "ensures", "invariant")):
             return m.group(1)
